@@ -95,3 +95,15 @@ def runQueries : Cache → List Query → Cache × List ExecResult
     (rest.1, r.2 :: rest.2)
 
 end Btc
+
+namespace Btc
+
+/-- the cache slot of a fee estimate: `fee_high` (confirmation within 1 block), `fee_medium`
+(within 5), `fee_low` (later) — the same ladder when storing and when reading -/
+def feeGroup (blocks : Nat) : Nat := if blocks ≤ 1 then 0 else if blocks ≤ 5 then 1 else 2
+
+/-- `Service.estimatefee(blocks, priority)`: the priority names override the block count -/
+def feeBlocks (blocks : Nat) (priority : String) : Nat :=
+  if priority == "low" then 25 else if priority == "high" then 2 else blocks
+
+end Btc
